@@ -83,12 +83,15 @@ def gen_cases(rng, tier):
                          "foreign_rhs", "foreign_constraint", "set_value_state", "set_value_nonparam", "set_initial_param", "set_initial_horizon_alias", "DT_in_ode",
                          "T_in_ode", "alg_explicit"):
                     cases.append({"kind": "substage", "spec": spec, "fault": f, "pos": pos, "base": b})
+            if not spec["algebraics"]:
+                cases.append({"kind": "substage", "spec": spec, "fault": "clone_missing_der", "pos": 0, "base": b})
             if [p_ for p_ in spec["params"] if p_.get("role") != "horizon"]:
                 cases.append({"kind": "substage", "spec": spec, "fault": "clone_missing_value", "pos": 0, "base": b})
     nsp = 3 if tier == "quick" else 40
     for b in range(nsp):
         base = spline_base(rng)
-        for f in ("spline_nonlinear", "spline_timevarying", "missing_der", "no_solver", "spline_alg"):
+        for f in ("spline_nonlinear", "spline_timevarying", "missing_der", "no_solver", "spline_alg", "spline_nonlinear_late",
+                  "spline_offset_late"):
             cases.append({"kind": "spline", "base_spec": base, "fault": f, "pos": 0, "base": 1000 + b})
     return cases
 
@@ -124,7 +127,7 @@ def build_faulty(spec, fault, pos, substage=False):
         a = build.horizon_arg(spec[key])
         if a is not None:
             kw[key] = a
-    if substage and fault == "clone_missing_value":
+    if substage and fault in ("clone_missing_value", "clone_missing_der"):
         # the content goes into a template; two clones, only the first one receives its parameter values
         ocp = rockit.Ocp()
         st = rockit.Stage(**kw)
@@ -156,6 +159,8 @@ def build_faulty(spec, fault, pos, substage=False):
                 e = e * st.T
             if fault == "t0_in_ode":
                 e = e + st.t0
+        if fault == "clone_missing_der":
+            continue            # the template carries no dynamics at all: every clone declares its own
         if spec.get("dyn") == "next":
             st.set_next(b.syms[s["name"]], e)
         else:
@@ -223,6 +228,13 @@ def build_faulty(spec, fault, pos, substage=False):
         st.method(build.make_method(spec["method"]))
     if fault != "no_solver":
         ocp.solver("ipopt", {"ipopt.print_level": 0, "print_time": False})
+    if fault == "clone_missing_der":
+        s1 = ocp.stage(st)
+        s2 = ocp.stage(st)
+        for s in spec["states"]:
+            e = b.ca_mat(spec["rhs"][s["name"]])
+            (s1.set_next if spec.get("dyn") == "next" else s1.set_der)(b.syms[s["name"]], e)      # ... forgotten on s2
+        return ocp, (s2, x0sym)
     if fault == "clone_missing_value":
         s1 = ocp.stage(st)
         s2 = ocp.stage(st)
@@ -258,6 +270,10 @@ def build_spline(base, fault):
     ocp.method(rockit.SplineMethod(N=base["N"]))
     if fault != "no_solver":
         ocp.solver("ipopt", {"ipopt.print_level": 0, "print_time": False})
+    if fault in ("spline_nonlinear_late", "spline_offset_late"):
+        # well-posed at first, transcribed, then the last link is declared again with the same dependency pattern
+        ocp.sample(chain[0], grid="control")
+        ocp.set_der(chain[-1], ca.sin(u) if fault == "spline_nonlinear_late" else u + 1)
     return ocp, chain[0]
 
 
